@@ -318,8 +318,9 @@ func ServePrincipal(w http.ResponseWriter, r *http.Request, options *ServePrinci
 
 func servePrincipalPropfind(w http.ResponseWriter, r *http.Request, options *ServePrincipalOptions) error {
 	var propfind internal.PropFind
-	if r.Header.Get("Content-Type") == "" && internal.IsRequestBodyEmpty(r) {
-		// RFC 4918 section 9.1: an empty body is an allprop request
+	if internal.IsRequestBodyEmpty(r) {
+		// RFC 4918 section 9.1: an empty body is an allprop request, whatever
+		// Content-Type is announced for it
 		propfind.AllProp = &struct{}{}
 	} else if err := internal.DecodeXMLRequest(r, &propfind); err != nil {
 		return err
